@@ -105,9 +105,9 @@ Definition to_sum {A} (r : res A) : rerr + A :=
   match r with Ok a => inr a | ParseErr k p => inl (RParse k p) | Internal k => inl (RInternal k) | OutOfFuel => inl RFuel end.
 Definition wt (o : option wtext) : wtext := match o with Some t => t | None => WNone end.
 Definition with_text (m : mconfig) (t : wtext) : mconfig :=
-  mkMConfig (mc_syntax m) (mc_snippets m) (mc_variables m) t (mc_max_repeat m) (mc_max_repeat_snip m) (mc_jsx m)
+  mkMConfigD (mc_syntax m) (mc_snippets m) (mc_variables m) t (mc_max_repeat m) (mc_max_repeat_snip m) (mc_jsx m)
             (mc_context_name m) (mc_inline m) (mc_reverse_attrs m) (mc_href m)
-            (mc_bem m) (mc_bem_element m) (mc_bem_modifier m) (mc_context_class m).
+            (mc_bem m) (mc_bem_element m) (mc_bem_modifier m) (mc_context_class m) (mc_draws m).
 
 Definition mk_world : world :=
   mkWorld wtext text_truthy (xconfig * str) unit unit (fun _ _ => true) unit (list anode) str rerr
